@@ -1,7 +1,7 @@
 """Tree rules TREE-0 .. TREE-7 (engines E0 / E7)."""
 import ast
 
-from ..model import AnalysisError, norm, head, walk_own, Cls, Func, qual_of
+from ..model import AnalysisError, norm, head, walk_own, Cls, Func, qual_of, concat_terms
 from .par import only_via, calls_in, is_method_call, tree_hierarchy, _bind_call
 
 TREE = 'parso/tree.py'
@@ -26,15 +26,14 @@ def tree_0(ctx, rep):
     rets = [n for n in walk_own(g.node) if isinstance(n, ast.Return)]
     cfg = ctx.cfg(g)
     ok = False
-    for n in cfg.nodes:
-        if n.kind == 'stmt' and isinstance(n.ast, ast.Return) and norm(n.ast.value) == 'self.prefix + self.value':
-            ok = flag is None or only_via(cfg, n, lambda e: norm(e) == flag, 'T')
-    # no other return may be reachable when include_prefix is true
-    others = [n for n in cfg.nodes if n.kind == 'stmt' and isinstance(n.ast, ast.Return)
-              and norm(n.ast.value) != 'self.prefix + self.value']
-    for o in others:
-        if flag is not None and not only_via(cfg, o, lambda e: norm(e) == flag, 'F'):
-            ok = False
+    def full(n):
+        return n.ast.value is not None and concat_terms(n.ast.value) == ['self.prefix', 'self.value']
+    rets_cfg = [n for n in cfg.nodes if n.kind == 'stmt' and isinstance(n.ast, ast.Return)]
+    # under include_prefix == True every reachable return yields prefix + value
+    from .par import reachable_with_edges_removed
+    flag_tests = [t for t in cfg.nodes if t.kind == 'test' and norm(t.ast) == flag]
+    reach_true = reachable_with_edges_removed(cfg, {(t, 'F') for t in flag_tests})
+    ok = bool(flag_tests) and any(full(n) for n in rets_cfg) and all(full(n) for n in rets_cfg if n in reach_true)
     rep.ob('TREE-0', TREE, g.qual, 'return self.prefix + self.value', ok,
            'the code of a leaf (with prefix) is not exactly prefix + value')
     # the default of include_prefix is True
@@ -408,8 +407,8 @@ def tree_5(ctx, rep):
     # return values
     norm_cls = prog.cls(NORMALIZER, 'Normalizer')
     vl = norm_cls.methods.get('visit_leaf')
-    ok = vl is not None and [norm(r.value) for r in walk_own(vl.node) if isinstance(r, ast.Return)] == \
-        ['%s.prefix + %s.value' % (vl.params()[1], vl.params()[1])]
+    ok = vl is not None and [concat_terms(r.value) for r in walk_own(vl.node) if isinstance(r, ast.Return)] == \
+        [['%s.prefix' % vl.params()[1], '%s.value' % vl.params()[1]]]
     rep.ob('TREE-5', NORMALIZER, 'Normalizer.visit_leaf', 'return leaf.prefix + leaf.value', ok,
            'the default leaf rendering is not prefix + value')
     v = norm_cls.methods.get('visit')
